@@ -1,5 +1,210 @@
-From Asynkit Require Import Base.Prelude Queue.PQ Queue.PosPQ.
-(* placeholder until BoostProofs lands *)
-Theorem C19_placeholder : forall (s : pos), plen s = plen s.
-Proof. reflexivity. Qed.
-Print Assumptions C19_placeholder.
+(* C19 - Starvation boosting is prompt, history-independent and safe.
+   Statements only; proofs are in Queue/BoostProofs.v.  The model
+   (Queue/PosPQ.v) is that of the code repaired by fixes/F11-boost.patch; the
+   unrepaired boosting code is kept in Queue/BoostOld.v for the witnesses of
+   C19_refuted_before_fix.
+
+   Vocabulary (all defined in Queue/PosPQ.v, Queue/PQCorr.v, Queue/BoostProofs.v):
+     pos_exec s ops      the state after the operations ops (any of append,
+                         append_pri, insert, popleft, remove, find, reschedule,
+                         reschedule_all, clear, iteration, len), as executed by
+                         the correspondence run [pos_run] (heap = heapq model HPV)
+     plen s              len(queue)
+     pairs H s l         the sustained load: for every (obj, priority) of l one
+                         round  popleft(); append_pri(obj, priority)
+     pre_maint H s1 o p  the state on which update_counters(True) decides while
+                         append_pri(o, p) runs in s1 (entry added, n_inserted
+                         incremented); do_maintenance is applied to this state
+     due s               the test  min(n_inserted, n_removed) >
+                                   max(10, len) + last_maintenance
+     maintenance_in_round H s x   the popleft of round x succeeds in s and the
+                         test is true in its append_pri, i.e. (lemma
+                         C19_due_means_maintenance) do_maintenance runs there
+     prio e              PriorityValue.priority() = base + boost
+     regular e           priority_class <> 0                                  *)
+From Coq Require Import QArith Permutation.
+From Asynkit Require Import Base.Prelude Base.Obs Queue.PQ Queue.PosPQ Queue.Exec Queue.PQCorr
+     Queue.BoostOld Queue.BoostProofs.
+Local Open Scope Z_scope.
+
+(* In every reachable state 0 <= last_maintenance <= min(n_inserted, n_removed). *)
+Theorem C19_counter_inv : forall (f : Q) (draws : list Q) (history : list posop),
+  let s := pos_exec (pos_empty f draws) history in
+  0 <= last_maint s /\ last_maint s <= Z.min (n_ins s) (n_rem s).
+Proof. intros f ds ops. rewrite pos_exec_gexec. apply counter_inv. Qed.
+Print Assumptions C19_counter_inv.
+
+(* the same for every heap implementation *)
+Theorem C19_counter_inv_any_heap : forall (H : heapimpl pv) f draws history,
+  let s := gexec H (pos_empty f draws) history in
+  0 <= last_maint s /\ last_maint s <= Z.min (n_ins s) (n_rem s).
+Proof. exact counter_inv. Qed.
+Print Assumptions C19_counter_inv_any_heap.
+
+(* when the test is true, append_pri is: do_maintenance, then
+   last_maintenance := min(n_inserted, n_removed) *)
+Theorem C19_due_means_maintenance : forall (H : heapimpl pv) s o p,
+  due (pre_maint H s o p) = true ->
+  pos_append_pri H s o p =
+  set_lm (do_maintenance H (pre_maint H s o p)) (Z.min (n_ins s + 1) (n_rem s)).
+Proof. exact append_runs_maintenance. Qed.
+Print Assumptions C19_due_means_maintenance.
+
+(* Promptness: after ANY history, with L >= 2 entries queued and the length kept
+   constant by popleft/append_pri rounds of arbitrary new entries,
+   (a) do_maintenance runs in one of the first max(10,L)+1 rounds, and
+   (b) it runs in a round number L+1 .. L+max(10,L)+1, and in that run every
+       entry that was already queued at the start (inserted_at <= n_inserted
+       then) passes the straggler test  inserted_at < n_inserted - len.
+   Both bounds depend on L only, not on the history. *)
+Theorem C19_prompt : forall (f : Q) (draws : list Q) (history : list posop)
+                            (load : list (Z * Q)),
+  let s := pos_exec (pos_empty f draws) history in
+  let L := plen s in
+  2 <= L ->
+  (Z.max 10 L + 1 <= Z.of_nat (length load) ->
+   exists l1 x l2, load = l1 ++ x :: l2 /\
+     Z.of_nat (length l1) <= Z.max 10 L /\
+     maintenance_in_round HPV (pairs HPV s l1) x)
+  /\
+  (L + Z.max 10 L + 1 <= Z.of_nat (length load) ->
+   exists l1 x l2, load = l1 ++ x :: l2 /\
+     L <= Z.of_nat (length l1) <= L + Z.max 10 L /\
+     maintenance_in_round HPV (pairs HPV s l1) x /\
+     forall o s1, pos_popleft HPV (pairs HPV s l1) = Some (o, s1) ->
+       let sm := pre_maint HPV s1 (fst x) (snd x) in
+       plen sm = L /\
+       forall e, In e (arr (pq_ sm)) -> ins_at (epri e) <= n_ins s ->
+                 (ins_at (epri e) <? n_ins sm - plen sm) = true).
+Proof.
+  intros f ds hist load s L HL.
+  assert (Hc : cinv s).
+  { unfold s. rewrite pos_exec_gexec. apply gexec_cinv. unfold cinv; simpl; lia. }
+  split; intros Hlen.
+  - apply (prompt_maintenance HPV heap_len_HPV s load Hc HL Hlen).
+  - apply (prompt HPV heap_len_HPV s load Hc HL Hlen).
+Qed.
+Print Assumptions C19_prompt.
+
+(* the same from any state satisfying the counter invariant, for every heap
+   implementation whose primitives change the length as expected *)
+Theorem C19_prompt_any_heap : forall (H : heapimpl pv), heap_len H ->
+  forall s load, cinv s -> 2 <= plen s ->
+  plen s + Z.max 10 (plen s) + 1 <= Z.of_nat (length load) ->
+  exists l1 x l2, load = l1 ++ x :: l2 /\
+    plen s <= Z.of_nat (length l1) <= plen s + Z.max 10 (plen s) /\
+    maintenance_in_round H (pairs H s l1) x /\
+    forall o s1, pos_popleft H (pairs H s l1) = Some (o, s1) ->
+      let sm := pre_maint H s1 (fst x) (snd x) in
+      plen sm = plen s /\
+      forall e, In e (arr (pq_ sm)) -> ins_at (epri e) <= n_ins s ->
+                (ins_at (epri e) <? n_ins sm - plen sm) = true.
+Proof. exact prompt. Qed.
+Print Assumptions C19_prompt_any_heap.
+
+(* Safety of one maintenance run (any heap implementation, any state, factor > 0,
+   every remaining draw < 1): either nothing changes, or - with m the priority
+   of the most urgent REGULAR entry - the new array is the old one (re-heapified
+   when something was boosted) in which every entry is either untouched or is a
+   regular straggler with priority() p > m whose boost was lowered
+   (boost' < boost: only more urgent) with  m - (factor-1)(p-m) < base + boost';
+   object, sequence number, base priority, inserted_at and class never change. *)
+Theorem C19_boost_safe : forall (H : heapimpl pv) (s : pos),
+  (0 < factor s)%Q -> Forall (fun d => d < 1)%Q (draws s) ->
+  let s' := do_maintenance H s in
+  s' = s \/
+  exists (m : Q) (a' : list (entry pv)),
+    ((exists e, In e (arr (pq_ s)) /\ regular e /\ (prio e == m)%Q) /\
+     (forall e, In e (arr (pq_ s)) -> regular e -> (m <= prio e)%Q)) /\
+    Forall2 (fun e e' =>
+       e' = e \/
+       (regular e /\ ins_at (epri e) < n_ins s - plen s /\ (m < prio e)%Q /\
+        eobj e' = eobj e /\ eseq e' = eseq e /\
+        base (epri e') = base (epri e) /\ ins_at (epri e') = ins_at (epri e) /\
+        pclass (epri e') = pclass (epri e) /\
+        (boost (epri e') < boost (epri e))%Q /\
+        (m - (factor s - 1) * (prio e - m) < prio e')%Q))
+      (arr (pq_ s)) a' /\
+    (arr (pq_ s') = a' \/ arr (pq_ s') = heapify H a').
+Proof. exact boost_safe. Qed.
+Print Assumptions C19_boost_safe.
+
+(* ... counters, sequence counter and factor are untouched, *)
+Theorem C19_boost_safe_frame : forall (H : heapimpl pv) (s : pos),
+  last_maint (do_maintenance H s) = last_maint s /\
+  n_ins (do_maintenance H s) = n_ins s /\ n_rem (do_maintenance H s) = n_rem s /\
+  factor (do_maintenance H s) = factor s /\
+  seqn (pq_ (do_maintenance H s)) = seqn (pq_ s).
+Proof. exact do_maintenance_frame. Qed.
+Print Assumptions C19_boost_safe_frame.
+
+(* ... nothing is lost, duplicated or renumbered when heapify permutes, *)
+Theorem C19_boost_safe_contents : forall (H : heapimpl pv) (s : pos),
+  (forall a, Permutation (heapify H a) a) ->
+  (0 < factor s)%Q -> Forall (fun d => d < 1)%Q (draws s) ->
+  Permutation
+    (map (fun e => (eobj e, eseq e, base (epri e), ins_at (epri e), pclass (epri e)))
+         (arr (pq_ (do_maintenance H s))))
+    (map (fun e => (eobj e, eseq e, base (epri e), ins_at (epri e), pclass (epri e)))
+         (arr (pq_ s))).
+Proof. exact boost_safe_contents. Qed.
+Print Assumptions C19_boost_safe_contents.
+
+(* ... and whatever the boosts, a positional entry (class 0) compares before a
+   regular one (class 1): PriorityValue.__lt__ looks at the class first. *)
+Theorem C19_positional_first : forall a b : pv,
+  pclass a < pclass b -> pv_lt a b = true /\ pv_lt b a = false.
+Proof. exact class_dominates. Qed.
+Print Assumptions C19_positional_first.
+
+(* A considered entry IS boosted: with factor > 0, positive draws and enough of
+   them, every regular straggler strictly less urgent than m gets a strictly
+   lower boost from boost_stragglers. *)
+Theorem C19_considered_is_boosted : forall a limit (m f : Q) ds,
+  (0 < f)%Q -> Forall (fun d => 0 < d)%Q ds -> (length a <= length ds)%nat ->
+  Forall2 (fun e e' => regular e -> ins_at (epri e) < limit -> (m < prio e)%Q ->
+                       (boost (epri e') < boost (epri e))%Q)
+          a (fst (fst (boost_loop a limit m f ds))).
+Proof. exact boost_loop_complete. Qed.
+Print Assumptions C19_considered_is_boosted.
+
+(* deterministic core of "so it eventually runs": a draw r with r * factor >= 1
+   takes the boosted entry to the most urgent regular priority or beyond *)
+Theorem C19_boost_reaches_min : forall m p f r : Q,
+  (m < p)%Q -> (1 <= r * f)%Q -> (p + r * ((m - p) * f) <= m)%Q.
+Proof. exact boost_reaches_min. Qed.
+Print Assumptions C19_boost_reaches_min.
+
+(* The unrepaired code (Queue/BoostOld.v, heap = heapq model) violated all three
+   parts; every witness is a concrete history replayed by computation:
+   (i)  after a busy period of 120 rounds and a drain, last_maintenance = 110
+        while both counters are 0, and with 3 entries queued (bound 11 rounds)
+        100 further rounds pass without a maintenance run: the straggler
+        (object 7, priority 10) is never boosted;
+   (ii) with a positional entry at the head, the most urgent regular entry
+        (object 1, priority 5) is boosted by -15/4 and object 2 (priority 7)
+        to 7/4 < 5 - (3/2-1)(7-5) = 4;
+   (iii) an entry boosted from 10 to 17/8 is put back to 71/8 by the next run. *)
+Theorem C19_refuted_before_fix :
+  (let s := old_exec (3#2) [1#2] hist_i in
+   last_maint s = 110 /\ Z.min (n_ins s) (n_rem s) = 0 /\ plen s = 3 /\
+   let s' := fold_left old_step (rounds 100 5 0%Q) s in
+   last_maint s' = last_maint s /\
+   summary s' = [(5, 1, 0%Q, 0%Q); (7, 1, 10%Q, 0%Q); (5, 1, 0%Q, 0%Q)])
+  /\
+  (let s := old_exec (3#2) [1#2; 1#2; 1#2] hist_ii in
+   summary s = [(1, 1, 5%Q, 0%Q); (2, 1, 7%Q, 0%Q)] /\
+   summary (old_step s (OI0 4)) =
+     [(4, 0, 0%Q, 0%Q); (2, 1, 7%Q, (-21#4)%Q); (1, 1, 5%Q, (-15#4)%Q)])
+  /\
+  (summary (old_exec 1 [7#8; 1#8; 1#8] (hist_iii 22))
+     = [(3, 1, 1%Q, 0%Q); (1, 1, 10%Q, (-63#8)%Q)] /\
+   summary (old_exec 1 [7#8; 1#8; 1#8] (hist_iii 23))
+     = [(3, 1, 1%Q, 0%Q); (1, 1, 10%Q, (-9#8)%Q)]).
+Proof.
+  split; [|split].
+  - exact refuted_prompt.
+  - exact refuted_min_positional.
+  - exact refuted_only_more_urgent.
+Qed.
+Print Assumptions C19_refuted_before_fix.
